@@ -317,6 +317,16 @@ class ParseContext:
       parent = _inverse_lookup(path_attrs[-1])
       if parent is not None:  # A method of an already registered class.
         module = parent.selector
+    if original is None:
+      taken = _REGISTRY.get(f'{module}.{name}')
+      if taken is not None and taken.wrapped is not fn_or_cls:
+        # Another file reached a different object through the same spelling (it
+        # binds the same import name to another module). Names are per file:
+        # register this object under the path it really lives at instead.
+        real_module = getattr(fn_or_cls, '__module__', None)
+        if real_module:
+          qualname = getattr(fn_or_cls, '__qualname__', name)
+          module = '.'.join([real_module, *qualname.split('.')[:-1]])
     _make_configurable(
         fn_or_cls,
         name=name,
